@@ -42,9 +42,21 @@ def key_words(rng, n, dist):
     raise ValueError(dist)
 
 
+def start_of(rng, style, pos):
+    if style == "zero":
+        return 0
+    if style == "any":
+        return rng.getrandbits(32)
+    return pos & 0xFFFFFFFF
+
+
 def gen_cas(rng, h, nchunks, chunk_pool=None, dup_rate=0.0):
     chunks = []
     pos = 0
+    # the start offsets recorded with the chunks: the running sum of the lengths (what this client writes), or -- the field is
+    # data to the shard code, the byte count of an answer is the sum of the lengths whatever the offsets say -- all zero, with
+    # gaps, or unrelated
+    style = rng.choice(["sum", "sum", "zero", "gaps", "any"])
     for _ in range(nchunks):
         if chunk_pool and rng.random() < dup_rate:
             ch = rng.choice(chunk_pool)
@@ -53,8 +65,8 @@ def gen_cas(rng, h, nchunks, chunk_pool=None, dup_rate=0.0):
             if chunk_pool is not None:
                 chunk_pool.append(ch)
         ln = rng.choice([1, 100, 8192, 65536, 131072, rng.randrange(1, 131073)])
-        chunks.append((ch, ln, pos, rng.choice([0, 0, rng.getrandbits(64)])))
-        pos += ln
+        chunks.append((ch, ln, start_of(rng, style, pos), rng.choice([0, 0, rng.getrandbits(64)])))
+        pos += ln + (rng.randrange(0, 5000) if style == "gaps" else 0)
     if rng.random() < 0.06:
         # byte totals close to u32::MAX: the shard-wide sums must be carried in 64 bits
         big = rng.choice([0xFFFFFFFF, 0xFFFFFF00, 0x90000000])
